@@ -246,5 +246,19 @@ Fixpoint after_chain {B : Type} (consume : hit -> B -> B) (fuel : nat) (n : Z) (
       end
   end.
 
+(* the backward paging protocol: Before(key), then Before(sort value of the FIRST hit of the page
+   just received), until a page comes back empty; pages are prepended *)
+Fixpoint before_chain {B : Type} (consume : hit -> B -> B) (fuel : nat) (n : Z) (order : list sortspec)
+         (aggf : list Z) (b0 : B) (hits : list rawhit) (key : list bytes) : res (list hit) :=
+  match fuel with
+  | O => OutOfFuel
+  | S f =>
+      page <- rmap fst (topn_search consume n order (PBefore key) aggf b0 hits) ;;
+      match page with
+      | [] => Ok []
+      | first :: _ => rest <- before_chain consume f n order aggf b0 hits (h_sort first) ;; Ok (rest ++ page)
+      end
+  end.
+
 (* the observable of a result list: document numbers and sort values, in order *)
 Definition result_obs (l : list hit) : list (Z * list bytes) := map (fun h => (h_doc h, h_sort h)) l.
